@@ -39,6 +39,9 @@ func errResultIndex(sig *types.Signature) int {
 
 type errAnalysis struct {
 	fwdMemo map[[2]interface{}]int
+	depMemo map[[2]interface{}][]int
+	depBusy map[[2]interface{}]bool
+	wdMemo  map[[2]interface{}]int
 	w       *World
 	named   map[string]types.Type
 	prop    map[*ssa.Function]bool
@@ -108,6 +111,7 @@ type errFlow struct {
 	textOnly      []string // uses that keep only the text
 	nilTests      []*ssa.BinOp
 	derived       map[ssa.Value]bool // values that carry the error (or a wrapping of it)
+	deposits      []*ssa.Parameter   // pointer parameters into a field of which the error was stored
 }
 
 // wrapsArg: does the call keep the cause reachable for its argument v?
@@ -235,6 +239,11 @@ func (a *errAnalysis) flow(ev ssa.Value) *errFlow {
 						}
 					}
 				case *ssa.FieldAddr:
+					// l.errs = append(l.errs, wrap(err)): put away in the object a parameter
+					// points to (a collector the caller asks for its verdict later)
+					if p, ok := ad.X.(*ssa.Parameter); ok {
+						fl.deposits = append(fl.deposits, p)
+					}
 					// &EnhancedError{Err: err}: stored into a struct that is itself an error
 					_, fname := fieldOfAddr(ad)
 					if fname == "Err" || fname == "err" || fname == "cause" {
@@ -277,6 +286,36 @@ func (a *errAnalysis) flow(ev ssa.Value) *errFlow {
 				if cc.IsInvoke() && cc.Method.Name() == "Error" && cc.Value == v {
 					fl.textOnly = append(fl.textOnly, "err.Error()")
 					continue
+				}
+				if g := cc.StaticCallee(); g != nil && isTwigFn(g) && len(g.Blocks) > 0 {
+					collected := false
+					for ai, arg := range cc.Args {
+						if arg != v || ai >= len(g.Params) {
+							continue
+						}
+						if _, isPtr := v.Type().Underlying().(*types.Pointer); isPtr && !types.Identical(v.Type(), errorType) {
+							// a collector object asked for its verdict
+							if a.withdraws(g, ai) {
+								if val, ok := r.(ssa.Value); ok {
+									for _, e := range errValues(val) {
+										walk(e)
+									}
+									collected = true
+								}
+							}
+							continue
+						}
+						// an error handed to a collector: the object carries it from here on
+						for _, j := range a.depositsOf(g, ai) {
+							if j < len(cc.Args) {
+								walk(cc.Args[j])
+								collected = true
+							}
+						}
+					}
+					if collected {
+						continue
+					}
 				}
 				wrapped, text := wrapsArg(x, v)
 				if !wrapped && text == "" {
@@ -964,4 +1003,79 @@ func checkNamedFilterApplied(w *World, r *Report) {
 		}
 	}
 	r.Counts["node renderers that apply a named filter"] = n
+}
+
+
+// depositsOf: the indices of the pointer parameters of g into whose pointee the error handed in
+// as parameter i is stored (wrapped or not).
+func (a *errAnalysis) depositsOf(g *ssa.Function, i int) []int {
+	if a.depMemo == nil {
+		a.depMemo = map[[2]interface{}][]int{}
+		a.depBusy = map[[2]interface{}]bool{}
+	}
+	key := [2]interface{}{g, i}
+	if r, ok := a.depMemo[key]; ok {
+		return r
+	}
+	if a.depBusy[key] || i >= len(g.Params) {
+		return nil
+	}
+	a.depBusy[key] = true
+	defer delete(a.depBusy, key)
+	fl := a.flow(g.Params[i])
+	var out []int
+	for _, p := range fl.deposits {
+		for j, q := range g.Params {
+			if q == p {
+				out = append(out, j)
+			}
+		}
+	}
+	a.depMemo[key] = out
+	return out
+}
+
+// withdraws: some error g returns derives from a field of the object its parameter j points to.
+func (a *errAnalysis) withdraws(g *ssa.Function, j int) bool {
+	if a.wdMemo == nil {
+		a.wdMemo = map[[2]interface{}]int{}
+	}
+	key := [2]interface{}{g, j}
+	switch a.wdMemo[key] {
+	case 1, 3:
+		return false
+	case 2:
+		return true
+	}
+	a.wdMemo[key] = 1
+	res := false
+	if j < len(g.Params) && errResultIndex(g.Signature) >= 0 {
+		instrsOf(g, func(in ssa.Instruction) {
+			u, ok := in.(*ssa.UnOp)
+			if !ok || u.Op != token.MUL || res {
+				return
+			}
+			fa, ok := u.X.(*ssa.FieldAddr)
+			if !ok || fa.X != ssa.Value(g.Params[j]) {
+				return
+			}
+			// only fields that hold errors
+			ft := u.Type()
+			if sl, isSl := ft.Underlying().(*types.Slice); isSl {
+				ft = sl.Elem()
+			}
+			if !types.Identical(ft, errorType) {
+				return
+			}
+			if a.flow(u).reachesReturn {
+				res = true
+			}
+		})
+	}
+	if res {
+		a.wdMemo[key] = 2
+	} else {
+		a.wdMemo[key] = 3
+	}
+	return res
 }
